@@ -155,6 +155,7 @@ func init() {
 				opts.Prob.AllConsidered = true // shared rather than copied internal slices
 			}
 			q := genRequest(r, opts)
+			c02Invalidate(r, q)
 			mp := q.Body["methodParameters"].(J)
 			if (q.Method == "majorityHeuristic" || q.Method == "satisfactionHeuristic") && r.chance(0.6) {
 				mp["currentChoice"] = q.Problem.Chosen[r.Intn(len(q.Problem.Chosen))] // current choice taken from choseToMake
